@@ -192,3 +192,33 @@ def passed_bounds(analysis, clsqual):
             if e.a["args"]:
                 out["<positional>"] = "U"
     return out, n
+
+
+def shrinking_updates(cls):
+    """Updates in __call__ that make the sequence of produced delays go down: the state an interval object carries from one call to
+    the next (attributes assigned in __call__) may only be multiplied, added to or capped from above - a state attribute that is
+    divided, subtracted from, shifted right or taken modulo, or that appears in a denominator or on the right of a minus, makes a
+    later delay smaller than an earlier one (with the default factor 2 and every factor >= 1)."""
+    call = cls.methods.get("__call__")
+    if call is None:
+        return []
+    state = set()
+    for x in ast.walk(call.node):
+        tg = x.targets[0] if isinstance(x, ast.Assign) and len(x.targets) == 1 else (x.target if isinstance(x, ast.AugAssign) else None)
+        if isinstance(tg, ast.Attribute) and isinstance(tg.value, ast.Name) and tg.value.id == "self":
+            state.add(tg.attr)
+
+    def mentions_state(n):
+        return any(isinstance(y, ast.Attribute) and isinstance(y.value, ast.Name) and y.value.id == "self" and y.attr in state for y in ast.walk(n))
+    out = []
+    for x in ast.walk(call.node):
+        if isinstance(x, ast.AugAssign) and isinstance(x.target, ast.Attribute) and isinstance(x.target.value, ast.Name) and x.target.value.id == "self" \
+                and isinstance(x.op, (ast.Sub, ast.Div, ast.FloorDiv, ast.Mod, ast.RShift)):
+            out.append((x, "self.%s %s= ..." % (x.target.attr, {ast.Sub: "-", ast.Div: "/", ast.FloorDiv: "//", ast.Mod: "%", ast.RShift: ">>"}[type(x.op)])))
+        if isinstance(x, ast.BinOp) and isinstance(x.op, (ast.Sub, ast.Div, ast.FloorDiv, ast.Mod, ast.RShift)) and mentions_state(x.right):
+            out.append((x, "state in %s" % ast.unparse(x)[:60]))
+        if isinstance(x, ast.Assign) and len(x.targets) == 1 and isinstance(x.targets[0], ast.Attribute) and isinstance(x.value, ast.BinOp) \
+                and isinstance(x.value.op, (ast.Sub, ast.Div, ast.FloorDiv, ast.Mod, ast.RShift)) and isinstance(x.value.left, ast.Attribute) \
+                and isinstance(x.value.left.value, ast.Name) and x.value.left.value.id == "self" and x.value.left.attr == x.targets[0].attr:
+            out.append((x, ast.unparse(x)[:60]))
+    return out
